@@ -20,13 +20,20 @@ SRC = os.path.join(REPO, "src")
 
 def ensure(argv0=None):
     want = os.environ.get("ZCSIM_HASHSEED", "0")
-    if os.environ.get("PYTHONHASHSEED") != want:
+    # ZCSIM_OPTIMIZE=1: the interpreter runs with -O (assert statements are
+    # not executed) -- an environment an application may well run in; the
+    # runner executes a stratum of every check that way
+    want_opt = os.environ.get("ZCSIM_OPTIMIZE") == "1"
+    if os.environ.get("PYTHONHASHSEED") != want \
+            or bool(sys.flags.optimize) != want_opt:
         env = dict(os.environ)
         env["PYTHONHASHSEED"] = want
         env["PYTHONDONTWRITEBYTECODE"] = "1"
+        env.pop("PYTHONOPTIMIZE", None)
         script = argv0 or sys.argv[0]
         os.execve(sys.executable,
-                  [sys.executable, "-B", script] + sys.argv[1:], env)
+                  [sys.executable, "-B"] + (["-O"] if want_opt else [])
+                  + [script] + sys.argv[1:], env)
     sys.dont_write_bytecode = True
     for p in (VERIF, SRC):
         while p in sys.path:
